@@ -1265,4 +1265,16 @@ def make(seed, kind="c", name=None, header=True, cyc=None, **kw):
             if t[k - 1] not in "*/\\\n" and t[k] not in "*/\n":
                 l.segs[j] = (t[:k] + g.x.choice(["\x0c", "\x0b", "\x85", "\u2028", "\u00e9", "\u20ac", "\x1c"]) + t[k:], c)
                 p.meta["feats"] = sorted(set(p.meta.get("feats", [])) | {"comment_special_char"})
+    if g.x.random() < 0.15:
+        # a line of a multi-line comment that reads like a preprocessor directive (comment text is free)
+        cs = [(l, j) for l in p.lines if l.kind != "hdr" for j, (t, c) in enumerate(l.segs) if c == "comment:multi" and t.count("\n") >= 2]
+        if cs:
+            l, j = g.x.choice(cs)
+            t, c = l.segs[j]
+            parts = t.split("\n")
+            k = g.x.randint(1, len(parts) - 2)
+            parts[k] = g.x.choice(["#if 0", "#ifdef DEBUG", "#ifndef X_H", "#endif", "# define X 1", "#include <a.h>", "#else", "#elif 1",
+                                   "%:if 0", "??=ifdef OLD", "** #if 0", "#error x", "#pragma once", "#  if defined(A)"])
+            l.segs[j] = ("\n".join(parts), c)
+            p.meta["feats"] = sorted(set(p.meta.get("feats", [])) | {"comment_directive_like"})
     return p
